@@ -345,4 +345,130 @@ example : (quantileGauss Ttriv (1 / 4) 0 1) = .ok 0 ∧ quantileGauss Ttriv 0 0 
   decide +kernel
 example : cdfChiSq Ttriv 1 0 = 1 ∧ cdfChiSq Ttriv (-1) 3 = 0 ∧ pdfChiSq Ttriv 0 3 = 0 := by decide +kernel
 
+/-! ## Empty bins and explicit backgrounds -/
+
+/-- a bin without predicted signal and without observed events still contributes `exp(-b)` -/
+theorem likelihood_empty_bin (T : Fn) (b : Rat) : likelihoodPoisson T 0 0 b = T.exp (-b) := by
+  unfold likelihoodPoisson logLikelihoodPoisson
+  congr 1
+  simp [sumLog]
+
+/-- with an explicit background vector of the right length the bins are the triples `(s_i, n_i, b_i)` -/
+theorem bins_explicit (s : List Rat) (n : List Nat) (b : List Rat) (hb : b ≠ []) (hn : n.length = s.length) (hl : b.length = s.length) :
+    bins s n b = .ok (s.zip (n.zip b)) := by
+  unfold bins
+  have : b.isEmpty = false := by cases b <;> simp_all
+  simp [this, hn, hl]
+
+/-- the binned likelihood of `(0, 0, b₀)` followed by further bins is `exp(-b₀)` times the rest: no bin may be skipped -/
+theorem binned_empty_bin_factor (T : Fn) (h0 : T.exp 0 = 1) (hadd : ∀ a b, T.exp (a + b) = T.exp a * T.exp b)
+    (b0 : Rat) (s : List Rat) (n : List Nat) (b : List Rat) (hn : n.length = s.length) (hl : b.length = s.length) :
+    likelihoodBinned T (0 :: s) (0 :: n) (b0 :: b) =
+      .ok (T.exp (-b0) * ((s.zip (n.zip b)).map (fun t => likelihoodPoisson T t.1 t.2.1 t.2.2)).prod) := by
+  have hb := bins_explicit (0 :: s) (0 :: n) (b0 :: b) (by simp) (by simp [hn]) (by simp [hl])
+  rw [(binned_is_product T h0 hadd _ _ _ _ hb).2]
+  simp [likelihood_empty_bin]
+
+example : bins [0, 2] [0, 3] [1, 0] = .ok [(0, 0, 1), (2, 3, 0)] := by decide +kernel
+
+/-! ## Scale families: density(c·x; c·a) = density(x; a)/c, CDF(c·x; c·a) = CDF(x; a) for every c > 0
+    (no hypothesis on the transcendental parameters: the arguments handed to them are equal) -/
+
+theorem pdfMB_scale (T : Fn) (c x a : Rat) (hc : 0 < c) :
+    pdfMB T (c * x) (c * a) = (pdfMB T x a).map (fun v => v / c) := by
+  unfold pdfMB
+  by_cases ha : a ≤ 0
+  · have : c * a ≤ 0 := mul_nonpos_of_nonneg_of_nonpos hc.le ha
+    rw [if_pos ha, if_pos this]; rfl
+  · have ha' : 0 < a := not_le.mp ha
+    have : ¬ c * a ≤ 0 := not_le.mpr (mul_pos hc ha')
+    rw [if_neg ha, if_neg this]
+    by_cases hx : x < 0
+    · have : c * x < 0 := mul_neg_of_pos_of_neg hc hx
+      rw [if_pos hx, if_pos this]; simp [Except.map]
+    · have : ¬ c * x < 0 := not_lt.mpr (mul_nonneg hc.le (not_lt.mp hx))
+      rw [if_neg hx, if_neg this]
+      simp only [Except.map]
+      have e : -(c * x) * (c * x) / 2 / (c * a) / (c * a) = -x * x / 2 / a / a := by field_simp
+      rw [e]
+      congr 1
+      field_simp
+
+theorem cdfMB_scale (T : Fn) (c x a : Rat) (hc : 0 < c) : cdfMB T (c * x) (c * a) = cdfMB T x a := by
+  unfold cdfMB
+  by_cases ha : a ≤ 0
+  · have : c * a ≤ 0 := mul_nonpos_of_nonneg_of_nonpos hc.le ha
+    rw [if_pos ha, if_pos this]
+  · have ha' : 0 < a := not_le.mp ha
+    have : ¬ c * a ≤ 0 := not_le.mpr (mul_pos hc ha')
+    rw [if_neg ha, if_neg this]
+    by_cases hx : x < 0
+    · have : c * x < 0 := mul_neg_of_pos_of_neg hc hx
+      rw [if_pos hx, if_pos this]
+    · have : ¬ c * x < 0 := not_lt.mpr (mul_nonneg hc.le (not_lt.mp hx))
+      rw [if_neg hx, if_neg this]
+      have e1 : -(c * x) * (c * x) / 2 / (c * a) / (c * a) = -x * x / 2 / a / a := by field_simp
+      have e2 : c * x / T.sqrt 2 / (c * a) = x / T.sqrt 2 / a := by
+        by_cases h2 : T.sqrt 2 = 0
+        · simp [h2]
+        · field_simp
+      have e3 : T.sqrt (2 / T.pi) * (c * x) / (c * a) = T.sqrt (2 / T.pi) * x / a := by field_simp
+      rw [e1, e2, e3]
+
+theorem pdfExponential_scale (T : Fn) (c x m : Rat) (hc : 0 < c) :
+    pdfExponential T (c * x) (c * m) = (pdfExponential T x m).map (fun v => v / c) := by
+  unfold pdfExponential
+  by_cases hm : m ≤ 0
+  · have : c * m ≤ 0 := mul_nonpos_of_nonneg_of_nonpos hc.le hm
+    rw [if_pos hm, if_pos this]; rfl
+  · have hm' : 0 < m := not_le.mp hm
+    have : ¬ c * m ≤ 0 := not_le.mpr (mul_pos hc hm')
+    rw [if_neg hm, if_neg this]
+    by_cases hx : x < 0
+    · have : c * x < 0 := mul_neg_of_pos_of_neg hc hx
+      rw [if_pos hx, if_pos this]; simp [Except.map]
+    · have : ¬ c * x < 0 := not_lt.mpr (mul_nonneg hc.le (not_lt.mp hx))
+      rw [if_neg hx, if_neg this]
+      simp only [Except.map]
+      have e : -1 / (c * m) * (c * x) = -1 / m * x := by field_simp
+      rw [e]
+      congr 1
+      field_simp
+
+theorem cdfExponential_scale (T : Fn) (c x m : Rat) (hc : 0 < c) : cdfExponential T (c * x) (c * m) = cdfExponential T x m := by
+  unfold cdfExponential
+  by_cases hm : m ≤ 0
+  · have : c * m ≤ 0 := mul_nonpos_of_nonneg_of_nonpos hc.le hm
+    rw [if_pos hm, if_pos this]
+  · have hm' : 0 < m := not_le.mp hm
+    have : ¬ c * m ≤ 0 := not_le.mpr (mul_pos hc hm')
+    rw [if_neg hm, if_neg this]
+    by_cases hx : x < 0
+    · have : c * x < 0 := mul_neg_of_pos_of_neg hc hx
+      rw [if_pos hx, if_pos this]
+    · have : ¬ c * x < 0 := not_lt.mpr (mul_nonneg hc.le (not_lt.mp hx))
+      rw [if_neg hx, if_neg this]
+      have e : -1 / (c * m) * (c * x) = -1 / m * x := by field_simp
+      rw [e]
+
+theorem pdfGauss_scale (T : Fn) (c x mu sigma : Rat) (hc : 0 < c) (hs : sigma ≠ 0) :
+    pdfGauss T (c * x) (c * mu) (c * sigma) = pdfGauss T x mu sigma / c := by
+  unfold pdfGauss
+  have e : (c * x - c * mu) / (c * sigma) = (x - mu) / sigma := by field_simp
+  rw [e]
+  by_cases h2 : T.sqrt (2 * T.pi) = 0
+  · simp [h2]
+  · field_simp
+
+theorem cdfGauss_scale (T : Fn) (c x mu sigma : Rat) (hc : 0 < c) :
+    cdfGauss T (c * x) (c * mu) (c * sigma) = cdfGauss T x mu sigma := by
+  unfold cdfGauss
+  have e : (c * x - c * mu) / (T.sqrt 2 * (c * sigma)) = (x - mu) / (T.sqrt 2 * sigma) := by
+    by_cases h2 : T.sqrt 2 = 0
+    · simp [h2]
+    · by_cases hs : sigma = 0
+      · simp [hs]
+      · field_simp
+  rw [e]
+
 end Lp.C07
